@@ -580,6 +580,16 @@ func genRolloutWorld(c *Ctx) rsWorld {
 		}
 		wl = w
 	}
+	if c.Rng.Intn(15) == 0 && ro.Sub != nil && wl != nil {
+		// focused stream: a rollback in batches observed at a random step / sub-state
+		ro.RollbackInBatch, ro.HasTraffic, ro.Paused, ro.Disabled, ro.Deleting = true, false, false, false, false
+		ro.Phase, ro.Reason, ro.Term = "Progressing", "inRolling", "none"
+		for i := range ro.Steps {
+			ro.Steps[i].Weight = nil
+		}
+		ro.Sub.Hash, ro.Sub.FinStep = "same", "empty"
+		wl.Consistent, wl.InProgressAnno, wl.CanaryRev, wl.StableRev, wl.InRollback = true, true, "v1", "v1", true
+	}
 	var br *rsBR
 	if c.Rng.Intn(4) != 0 {
 		b := &rsBR{RolloutID: canaryRev, SpecOther: c.Rng.Intn(12) != 0, Deleting: c.Rng.Intn(12) == 0, PhaseCompleted: c.Rng.Intn(6) == 0,
@@ -609,6 +619,22 @@ func genRolloutWorld(c *Ctx) rsWorld {
 			b.RolloutID = "old"
 		}
 		b.RollbackAnno = ro.RollbackInBatch && wl != nil && wl.InRollback && c.Rng.Intn(2) == 0
+		if c.Rng.Intn(3) == 0 {
+			// focused stream: the BatchRelease exactly as the controller wrote it for the current step; only the
+			// reported progress varies around the requested batch (boundary cases of the readiness gate)
+			p := cur - 1
+			b.Partition, b.SpecOther, b.Deleting, b.Policy, b.RolloutID = &p, true, false, "", canaryRev
+			b.HashSame, b.GenObserved, b.PhaseCompleted = true, true, false
+			b.BatchReady = c.Rng.Intn(4) != 0
+			b.CurrentBatch = p + []int{0, 0, -1, -1, 1, -2}[c.Rng.Intn(6)]
+			if b.CurrentBatch < 0 {
+				b.CurrentBatch = 0
+			}
+			b.Batches = b.Batches[:0]
+			for _, s := range steps {
+				b.Batches = append(b.Batches, s.Replicas)
+			}
+		}
 		br = b
 	}
 	n := trNet{StableExists: c.Rng.Intn(15) != 0, StableIngress: c.Rng.Intn(15) != 0}
